@@ -69,7 +69,8 @@ LeadersOf(ts, t, p) ==
   IF T = {} THEN 0 ELSE LET ls == ts[CHOOSE i \in T : TRUE].leaders IN IF p + 1 \in DOMAIN ls THEN ls[p + 1] ELSE 0
 
 Reset(e) ==
-  /\ cl' = [alive |-> Range(e.alive), coord |-> e.coord, txn |-> e.txn, ctrlr |-> e.ctrlr, ver |-> 1, addr |-> [b \in Brokers |-> 1],
+  \* (a broker whose address refuses connections when the scenario starts joins the cluster when it comes up)
+  /\ cl' = [alive |-> Range(e.alive) \ Range(e.down), coord |-> e.coord, txn |-> e.txn, ctrlr |-> e.ctrlr, ver |-> 1, addr |-> [b \in Brokers |-> 1],
             topics |-> { e.topics[i].name : i \in DOMAIN e.topics },
             leader |-> [tp \in TPs |-> LeadersOf(e.topics, tp[1], tp[2])]]
   /\ cf' = [boot |-> Range(e.boot), vtab |-> VT(e.vtab), crange |-> CR(e.crange),
@@ -113,6 +114,8 @@ PlanOf(o) == LET S == { i \in DOMAIN plan : plan[i].o = o } IN
              IF S = {} THEN [deadlineMs |-> 0] ELSE plan[CHOOSE i \in S : TRUE]
 
 Legs == 1 .. 4
+\* requests of the connection set-up (version negotiation, SASL): part of the model's Connect step
+Setup == {"ApiVersions", "SaslHandshake", "SaslAuthenticate"}
 \* calls in progress (quantifying over these instead of Reqs keeps the evaluation of a step cheap)
 Active == { r \in Reqs : rq[r].pc \notin {"new", "done"} }
 CurLeg(c) == M!LegsR(conns[c].cur[1])[conns[c].cur[2]]
@@ -146,13 +149,13 @@ DialEv(e) ==
 \* connection to a leg is a silent step that precedes the write of the frame by the connection's goroutine
 NextApi(c) ==
   LET K == { k \in Window :
-               Trace[k].ev = "cwrite" /\ Trace[k].conn = c /\ Trace[k].api # "ApiVersions" } IN
+               Trace[k].ev = "cwrite" /\ Trace[k].conn = c /\ Trace[k].api \notin Setup } IN
   IF K = {} THEN "" ELSE Trace[CHOOSE k \in K : \A j \in K : k <= j].api
 
 \* a request frame is written by the goroutine of the connection: the connection carries that leg
 CWriteEv(e) ==
   LET c == e.conn IN
-  IF e.api = "ApiVersions" THEN Skip
+  IF e.api \in Setup THEN Skip
   ELSE /\ conns[c].st = "busy" /\ M!LegsR(conns[c].cur[1])[conns[c].cur[2]].api = e.api
        /\ conns[c].reqq # << >>
        /\ wrote' = wrote \cup {c}
@@ -162,7 +165,7 @@ CWriteEv(e) ==
 \* connection carries, the version is the negotiated one
 ReqEv(e) ==
   LET c == e.conn IN
-  IF e.api = "ApiVersions" THEN Skip
+  IF e.api \in Setup THEN Skip
   ELSE /\ conns[c].reqq # << >>
        /\ Head(conns[c].reqq) = <<(IF e.api = "Metadata" THEN 0 ELSE e.o), e.leg>>
        /\ conns[c].peer = e.broker
@@ -180,7 +183,7 @@ SameView(e, v) ==
 
 ReplyEv(e) ==
   LET c == e.conn  failed == e.closed \/ e.cut >= 0 IN
-  IF e.api = "ApiVersions"
+  IF e.api \in Setup
     THEN IF failed THEN M!ConnectFail(c) /\ Fr /\ Keep
          ELSE replied' = replied \cup {c} /\ UNCHANGED mvars /\ UNCHANGED <<dialTo, wrote, plan, over, eps>>
     ELSE IF failed THEN (IF conns[c].cut THEN Skip ELSE M!Cut(c) /\ Fr /\ Keep)
@@ -195,7 +198,7 @@ MoveEv(e) ==
          /\ UNCHANGED <<dialTo, replied, wrote, plan, over>>
   ELSE
   /\ CASE e.kind = "leader" -> IF cl.leader[<<e.t, e.p>>] = e.to THEN UNCHANGED mvars ELSE M!LeaderMove(<<e.t, e.p>>, e.to) /\ Fr
-       [] e.kind = "brokeradd" -> M!BrokerAdd(e.b) /\ Fr
+       [] e.kind \in {"brokeradd", "up"} -> M!BrokerAdd(e.b) /\ Fr
        [] e.kind = "brokerremove" -> M!BrokerRemove(e.b, e.h) /\ Fr
        [] e.kind = "topiccreate" -> M!TopicCreateWith(e.t, [p \in 0 .. NParts - 1 |-> e.leaders[p + 1]]) /\ Fr
        [] e.kind \in {"coord", "txn", "ctrlr"} ->
